@@ -172,6 +172,61 @@ fn random_list(rng: &mut Rng, number: u16) -> (Vec<Entry>, &'static str) {
     (entries, class)
 }
 
+/// lists written pass by pass over ascending satellites (signal-major order): every run of
+/// equal satellite ids has length one; totals are aimed at 8-bit wrap points of
+/// (entries, runs, runs - satellites)
+fn round_robin_list(rng: &mut Rng, number: u16) -> (Vec<Entry>, &'static str) {
+    let (nsat_max, table): (usize, &[(u8, u8, char)]) = if number == 1059 { (64, &SSR_GPS) } else { (32, &SSR_GLO) };
+    let tl = table.len();
+    let s_lo = 2usize;
+    let ns = rng.range(s_lo as i64, nsat_max as i64) as usize;
+    let max_e = (ns * tl).min(390);
+    let want: usize = match rng.below(6) {
+        0 => ns + 256,
+        1 => ns + 255,
+        2 => ns + 257,
+        3 => *rng.pick(&[255usize, 256, 257, 288, 300, 384, 389, 390]),
+        _ => rng.range(ns as i64, max_e as i64) as usize,
+    };
+    let e = want.clamp(ns, max_e);
+    let mut all: Vec<u8> = (0..nsat_max as u8).collect();
+    rng.shuffle(&mut all);
+    let mut sats: Vec<u8> = all[..ns].to_vec();
+    sats.sort();
+    // per-satellite counts: start at 1, add until the total is e
+    let mut cnt = vec![1usize; ns];
+    let mut total = ns;
+    let mut guard_i = 0;
+    while total < e && guard_i < 100_000 {
+        let i = rng.usize_below(ns);
+        if cnt[i] < tl {
+            cnt[i] += 1;
+            total += 1;
+        }
+        guard_i += 1;
+    }
+    let mut sigs: Vec<Vec<usize>> = (0..ns)
+        .map(|_| {
+            let mut v: Vec<usize> = (0..tl).collect();
+            rng.shuffle(&mut v);
+            v
+        })
+        .collect();
+    let descending = rng.chance(1, 4);
+    let mut entries: Vec<Entry> = Vec::new();
+    for pass in 0..tl {
+        let order: Vec<usize> = if descending { (0..ns).rev().collect() } else { (0..ns).collect() };
+        for i in order {
+            if pass < cnt[i] {
+                let si = sigs[i][pass];
+                entries.push((sats[i], table[si].1, table[si].2, rng.range(-8192, 8191) as i32));
+            }
+        }
+    }
+    let _ = &mut sigs;
+    (entries, "round_robin_over_satellites")
+}
+
 fn hostile_frames(ctx: &mut Ctx, rng: &mut Rng, number: u16, n: usize) {
     for _ in 0..n {
         ctx.eval();
@@ -245,7 +300,7 @@ pub fn run(p: &Params) -> Outcome {
                 break;
             }
             let number = if i % 2 == 0 { 1059 } else { 1065 };
-            let (e, class) = random_list(&mut rng, number);
+            let (e, class) = if i % 3 == 2 { round_robin_list(&mut rng, number) } else { random_list(&mut rng, number) };
             check(ctx, number, &e, class);
             if i % 4 == 0 {
                 hostile_frames(ctx, &mut rng, [1059u16, 1065, 1230][(i / 4 % 3) as usize], 2);
